@@ -370,7 +370,14 @@ func (y *LeafList) setParent(p Meta) {
 	y.parent = p
 }
 
-var anyType = newType("any")
+// shared by every anydata / anyxml definition of every module, so it is complete from
+// the start: compiling it on first use would be a write to shared state
+var anyType = func() *Type {
+	t := newType("any")
+	t.format = val.FmtAny
+	t.delegate = t
+	return t
+}()
 
 type Any struct {
 	ident          string
